@@ -130,11 +130,12 @@ fn real_main(args: &[String], scratch: &str) -> i32 {
                 clock: std::time::Instant::now(),
             };
             match args[2].as_str() {
-                "C01" | "C02code" | "C02stream" | "C09" | "C18" => iters::replay(&mut ctx, &args[2..]),
+                "C01" | "C01giant" | "C02giant" | "C02code" | "C02stream" | "C09" | "C18" => iters::replay(&mut ctx, &args[2..]),
                 "C03" | "C03seq" | "C04" | "C04file" | "C04long" | "C04huge" | "C12huge" | "C11reuse" | "C12reuse" | "C11" | "C11long" | "C11file" | "C12file" | "C12" => vecs::replay(&mut ctx, &args[2..]),
                 "C05sched" | "C14sched" | "C14lattice" | "C07sched" => conc::replay(&mut ctx, &args[2..]),
                 "C10s2m" | "C10m2s" | "C10s2m-free" | "C10m2s-free" | "C10big" => conc::replay_min(&mut ctx, &args[2..]),
                 "C05cfg" => conc::replay_c05cfg(&mut ctx, &args[2..]),
+                "C05pair" => conc::replay_c05pair(&mut ctx, &args[2..]),
                 "BatchSched" => conc::replay_batch(&mut ctx, &args[2..]),
                 "OligoReuse" => conc::replay_oligo_reuse(&mut ctx, &args[2..]),
                 "C06" | "C06hist" | "C06long" | "C06size" | "C06header" | "C06many" | "C06huge" | "C06len" | "C07" | "C08" | "C08one" | "C08bin" | "C08direct" | "C08reuse" => files::replay(&mut ctx, &args[2..]),
